@@ -6,7 +6,16 @@ to Gallina over the primitives of coq/Model/ScopesBase.v.  Fail-closed: any stat
 shape outside the subset raises TranslationError and the caller treats the regenerated obligation as
 broken.  The source is only read with `ast`; pyglove is never imported.
 
+Also: `for k, v in d.items():` with one loop-carried variable (fold), getattr/setattr on a parameter holding a
+threading.local, module-level variables and `self.<list>` kept in the process-wide store, procedures of another
+module inlined at the call site (renamed apart; literal True/False arguments select branches statically), `assert`
+before the yield (= entering fails), `if <test on parameters>: raise` argument validation (skipped, noted),
+`except Exception: flag = True; raise` (accepted when the flag only guards user callbacks).
+
 Translated:   thread_local.py  thread_local_value_scope, thread_local_arg_scope, thread_local_kwargs
+              contextual.py    contextual_scope (the cascade loop)
+              hyper/base.py + hyper/dynamic_evaluation.py   get_dynamic_evaluate_fn, dynamic_evaluate (set_dynamic_evaluate_fn inlined)
+              json_conversion.py  _TypeRegistry.load_types_for_deserialization
               permissions.py   permission, get_permission
               execution.py     context, get_context
               views/base.py    view_options
@@ -14,7 +23,7 @@ Translated:   thread_local.py  thread_local_value_scope, thread_local_arg_scope,
               flags.py         every `return thread_local.thread_local_value_scope(KEY, arg, INITIAL)` and its getter
               formatting.py    str_format / repr_format (instances of thread_local_arg_scope)
 Checked by fingerprint (modelled by hand in ScopesBase.v): thread_local_has/get/set/del/map/push/peek/pop.
-Keys only (hand-written managers in Model/Scopes.v): contextual.py, class_detour.py, hyper/base.py.
+Key only (hand-written manager in Model/Scopes.v): class_detour.py.
 """
 import ast
 import hashlib
@@ -120,12 +129,24 @@ class Fn:
   def __init__(self, fn, consts, keys, pure_fns, self_attrs=None, ignorable_methods=(), tls_objects=None):
     self.fn, self.consts, self.keys, self.pure_fns = fn, consts, keys, pure_fns
     self.tls_objects = dict(tls_objects or {})   # parameter holding a threading.local -> key namespace
+    self.use_global = False      # thread the process-wide store (gst) as well
+    self.global_vars = {}        # module-level variable name -> process-wide key ident
+    self.global_attrs = {}       # self.<attr> holding a process-wide list -> process-wide key ident
+    self.extern = {}             # imported module name -> dict(consts=..., globals=..., tree=...)
+    self.key_locals = {}         # local variable that only names a key -> key ident
+    self.known = {}              # local bound once to a literal True/False -> that value (static branch selection)
+    self.notes = []
+    self.inline_count = 0
+    self.vararg_dict = None      # (*param, exact dict-comprehension dump) treated as one dict parameter
     self.self_attrs = dict(self_attrs or {})      # attribute name -> initial Gallina value (class based managers)
     self.ignorable = set(ignorable_methods)
     a = fn.args
-    if a.posonlyargs or a.vararg:
+    if a.posonlyargs:
       raise TranslationError('%s: unsupported parameter list' % fn.name)
+    self.vararg = a.vararg.arg if a.vararg else None
     self.params = [x.arg for x in a.args] + [x.arg for x in a.kwonlyargs] + ([a.kwarg.arg] if a.kwarg else [])
+    if self.vararg:
+      self.params.insert(len(a.args), self.vararg)
     self.params = [x for x in self.params if x not in self.tls_objects]
     self.key_params = set()
     self.used_keys = []
@@ -167,13 +188,36 @@ class Fn:
     if isinstance(node, ast.Name):
       if node.id in self.key_params:
         return self.var(node.id)
+      if node.id in self.key_locals:
+        return self.key_locals[node.id]
       if node.id in self.consts:
         self.used_keys.append(self.consts[node.id])
         return self.keys.ident(ns, self.consts[node.id])
     if isinstance(node, ast.Attribute) and isinstance(node.value, ast.Name) and node.attr in self.consts \
         and node.value.id in ('self', 'cls'):
       return self.keys.ident(ns, self.consts[node.attr])
+    s = self.extern_const(node)
+    if s is not None:
+      self.used_keys.append(s)
+      return self.keys.ident(ns, s)
     self.err(node, 'unrecognised key expression %s' % ast.dump(node))
+
+  def extern_const(self, node):
+    if isinstance(node, ast.Attribute) and isinstance(node.value, ast.Name) and node.value.id in self.extern \
+        and node.attr in self.extern[node.value.id]['consts']:
+      return self.extern[node.value.id]['consts'][node.attr]
+    return None
+
+  def global_ref(self, node):
+    """module-level variable / self.<attr> kept in the process-wide store -> key ident"""
+    if isinstance(node, ast.Name) and node.id in self.global_vars:
+      return self.global_vars[node.id]
+    if isinstance(node, ast.Attribute) and isinstance(node.value, ast.Name):
+      if node.value.id in self.extern and node.attr in self.extern[node.value.id]['globals']:
+        return self.extern[node.value.id]['globals'][node.attr]
+      if node.value.id == 'self' and node.attr in self.global_attrs:
+        return self.global_attrs[node.attr]
+    return None
 
   def tls_call(self, call, name, nargs):
     """getattr(tls, KEY, default) / setattr(tls, KEY, value) on a parameter that holds a threading.local"""
@@ -188,6 +232,18 @@ class Fn:
       self.err(node, 'unsupported constant %r' % (node.value,))
     if isinstance(node, ast.Dict) and not node.keys:
       return 'v_empty_dict'
+    g = self.global_ref(node)
+    if g is not None:
+      if not self.use_global:
+        self.err(node, 'process-wide variable read in a function translated without the process-wide store')
+      return '(tl_get %s v_none gst)' % g
+    if self.vararg_dict and isinstance(node, ast.DictComp) and ast.dump(node) == self.vararg_dict[1]:
+      return self.var(self.vararg_dict[0])
+    if isinstance(node, ast.BoolOp) and len(node.values) == 2:
+      a, b = self.E(node.values[0], env), self.E(node.values[1], env)
+      if isinstance(node.op, ast.And):
+        return '(if truthy %s then %s else %s)' % (a, b, a)
+      return '(if truthy %s then %s else %s)' % (a, a, b)
     if isinstance(node, ast.Name):
       if node.id in self.key_params:
         self.err(node, 'key parameter %s used as a value' % node.id)
@@ -235,6 +291,15 @@ class Fn:
       self.err(node, 'unrecognised call %s' % ast.dump(f))
     self.err(node, 'unrecognised expression %s' % type(node).__name__)
 
+  def static(self, node):
+    """True/False when the condition is decided by a local bound once to a literal, else None"""
+    if isinstance(node, ast.Name) and node.id in self.known:
+      return self.known[node.id]
+    if isinstance(node, ast.UnaryOp) and isinstance(node.op, ast.Not):
+      v = self.static(node.operand)
+      return None if v is None else (not v)
+    return None
+
   def C(self, node, env):
     if isinstance(node, ast.Compare) and len(node.ops) == 1 and isinstance(node.comparators[0], ast.Constant) \
         and node.comparators[0].value is None:
@@ -278,6 +343,53 @@ class Fn:
       return '%slet st := tl_set %s %s st in\n%s' % (pad, self.K(c.args[1], self.tls_objects[c.args[0].id]), self.E(c.args[2], env), self.S(rest, env, k, ind))
     if isinstance(s, ast.For):
       return self.loop(s, rest, env, k, ind)
+    # argument validation: `if <test on parameters>: raise ...` before anything is read or written
+    if isinstance(s, ast.If) and len(s.body) == 1 and isinstance(s.body[0], ast.Raise) and not s.orelse and self.phase == 'enter' and not self.touched:
+      names = {n.id for n in ast.walk(s.test) if isinstance(n, ast.Name)}
+      if names <= set(self.params) | {'callable', 'isinstance'}:
+        self.notes.append('argument validation `if %s: raise` not modelled' % ast.unparse(s.test))
+        return self.S(rest, env, k, ind)
+    if isinstance(s, ast.Assert):
+      if self.phase != 'enter':
+        self.err(s, 'assert on the exit path (leaving the scope could fail)')
+      return '%sif %s then\n%s\n%selse None' % (pad, self.C(s.test, env), self.S(rest, env, k, ind + 1), pad)
+    # a local that only names a key
+    if isinstance(s, ast.Assign) and len(s.targets) == 1 and isinstance(s.targets[0], ast.Name):
+      ks = self.extern_const(s.value)
+      if ks is None and isinstance(s.value, ast.Name) and s.value.id in self.consts:
+        ks = self.consts[s.value.id]
+      if ks is not None:
+        nm = s.targets[0].id
+        uses = [n for n in ast.walk(self.fn) if isinstance(n, ast.Name) and n.id == nm and isinstance(n.ctx, ast.Load)]
+        self.key_locals[nm] = self.keys.ident('tls', ks)
+        self.used_keys.append(ks)
+        return self.S(rest, env, k, ind)
+    # assignment to a module-level variable kept in the process-wide store
+    if isinstance(s, ast.Assign) and len(s.targets) == 1 and self.global_ref(s.targets[0]) is not None:
+      if not self.use_global:
+        self.err(s, 'process-wide variable written in a function translated without the process-wide store')
+      self.touched = True
+      return '%slet gst := tl_set %s %s gst in\n%s' % (pad, self.global_ref(s.targets[0]), self.E(s.value, env), self.S(rest, env, k, ind))
+    if isinstance(s, ast.Expr) and isinstance(s.value, ast.Call):
+      c = s.value
+      f = c.func
+      # self.<global list>.append(x) / .pop()
+      if isinstance(f, ast.Attribute) and self.global_ref(f.value) is not None and f.attr in ('append', 'pop'):
+        g = self.global_ref(f.value)
+        self.touched = True
+        if f.attr == 'append' and len(c.args) == 1 and not c.keywords:
+          return '%slet gst := tl_push %s %s gst in\n%s' % (pad, g, self.E(c.args[0], env), self.S(rest, env, k, ind))
+        if f.attr == 'pop' and not c.keywords and (not c.args or ast.dump(c.args[0]) == 'UnaryOp(op=USub(), operand=Constant(value=1))'):
+          return '%slet gst := tl_pop %s gst in\n%s' % (pad, g, self.S(rest, env, k, ind))
+        self.err(s, 'unsupported call on a process-wide list')
+      # a user callback passed as a parameter
+      if isinstance(f, ast.Name) and f.id in self.params and f.id not in self.assigned and not c.args and not c.keywords:
+        self.notes.append('user callback %s() not modelled' % f.id)
+        return self.S(rest, env, k, ind)
+      # a procedure of another translated module: inlined
+      proc = self.procedure(f)
+      if proc is not None:
+        return self.inline(proc, c, rest, env, k, ind)
     if isinstance(s, ast.Assign) and len(s.targets) == 1:
       t = s.targets[0]
       if isinstance(t, ast.Name):
@@ -287,6 +399,8 @@ class Fn:
       else:
         self.err(s, 'unsupported assignment target')
       rhs = self.E(s.value, env)
+      if isinstance(s.value, ast.Constant) and s.value.value in (True, False) and self.assign_count.get(nm, 0) == 1:
+        self.known[nm] = s.value.value
       env2 = env if nm in env else env + [nm]
       return '%slet %s := %s in\n%s' % (pad, self.var(nm), rhs, self.S(rest, env2, k, ind))
     if isinstance(s, ast.Expr) and isinstance(s.value, ast.Call):
@@ -297,6 +411,7 @@ class Fn:
         ns = n if isinstance(n, tuple) else (n,)
         if len(c.args) not in ns or c.keywords:
           self.err(s, '%s called with an unexpected number of arguments' % p)
+        self.touched = True
         nval = 1 if p in ('thread_local_set', 'thread_local_push') else 0
         args = [self.K(c.args[0])] + [self.E(x, env) for x in c.args[1:1 + nval]]
         if p == 'thread_local_pop' and len(c.args) == 2 and not (isinstance(c.args[1], ast.Constant) and c.args[1].value is None):
@@ -313,12 +428,70 @@ class Fn:
       if isinstance(f, ast.Attribute) and f.attr in self.ignorable and isinstance(f.value, ast.Name):
         return self.S(rest, env, k, ind)      # a method known not to touch thread-local state
       self.err(s, 'unrecognised call statement %s' % ast.dump(f))
+    if isinstance(s, ast.If) and self.static(s.test) is not None:
+      return self.S((list(s.body) if self.static(s.test) else list(s.orelse)) + rest, env, k, ind)
     if isinstance(s, ast.If):
       c = self.C(s.test, env)
       a = self.S(list(s.body) + rest, env, k, ind + 1)
       b = self.S(list(s.orelse) + rest, env, k, ind + 1)
       return '%sif %s then\n%s\n%selse\n%s' % (pad, c, a, pad, b)
     self.err(s, 'unrecognised statement %s' % type(s).__name__)
+
+  def procedure(self, f):
+    if isinstance(f, ast.Attribute) and isinstance(f.value, ast.Name) and f.value.id in self.extern:
+      procs = self.extern[f.value.id].get('procs', {})
+      if f.attr in procs:
+        return (f.value.id, procs[f.attr])
+    return None
+
+  def inline(self, proc, call, rest, env, k, ind):
+    """Inlines `mod.proc(args)`: parameters are bound to the argument expressions, the body (renamed apart) is
+    spliced in front of the rest; literal True/False arguments select branches statically."""
+    mod, fn = proc
+    self.inline_count += 1
+    pre = 'q%d_' % self.inline_count
+    params = [a.arg for a in fn.args.args]
+    if fn.args.vararg or fn.args.kwarg or fn.args.kwonlyargs or fn.args.defaults:
+      self.err(call, 'unsupported signature of inlined procedure %s' % fn.name)
+    bound = {}
+    for p_, a in zip(params, call.args):
+      bound[p_] = a
+    for kw in call.keywords:
+      if kw.arg not in params or kw.arg in bound:
+        self.err(call, 'bad keyword argument for %s' % fn.name)
+      bound[kw.arg] = kw.value
+    if set(bound) != set(params):
+      self.err(call, 'arity mismatch calling %s' % fn.name)
+    body = _strip_doc(fn.body)
+    locals_ = set(params)
+    declared_global = set()
+    for n in ast.walk(fn):
+      if isinstance(n, ast.Global):
+        declared_global |= set(n.names)
+      if isinstance(n, ast.Name) and isinstance(n.ctx, ast.Store):
+        locals_.add(n.id)
+      if isinstance(n, (ast.Return, ast.Yield, ast.YieldFrom, ast.For, ast.While, ast.Try, ast.With, ast.Raise)):
+        self.err(call, 'unsupported control flow in inlined procedure %s' % fn.name)
+    locals_ -= declared_global
+    ext = self.extern[mod]
+    class Rn(ast.NodeTransformer):
+      def visit_Name(self_, node):
+        if node.id in locals_:
+          return ast.copy_location(ast.Name(id=pre + node.id, ctx=node.ctx), node)
+        if node.id in ext['consts'] or node.id in ext['globals']:
+          # a name of the callee's module: refer to it through the module
+          return ast.copy_location(ast.Attribute(value=ast.Name(id=mod, ctx=ast.Load()), attr=node.id, ctx=node.ctx), node)
+        return node
+    import copy
+    new_body = [Rn().visit(copy.deepcopy(st_)) for st_ in body if not isinstance(st_, ast.Global)]
+    binds = [ast.copy_location(ast.Assign(targets=[ast.Name(id=pre + p_, ctx=ast.Store())], value=bound[p_], lineno=call.lineno), call) for p_ in params]
+    for b in binds + new_body:
+      ast.fix_missing_locations(b)
+    for b in binds:
+      self.assign_count[b.targets[0].id] = 1 + sum(1 for n in ast.walk(ast.Module(body=new_body, type_ignores=[]))
+                                                   if isinstance(n, ast.Name) and isinstance(n.ctx, ast.Store) and n.id == b.targets[0].id)
+    self.inlined_locals |= {pre + x for x in locals_}
+    return self.S(binds + new_body + rest, env, k, ind)
 
   def loop(self, s, rest, env, k, ind):
     """for a, b in X.items(): body   ->   fold over the dict with the single loop-carried variable"""
@@ -371,9 +544,24 @@ class Fn:
             (isinstance(v.func, ast.Attribute) and v.func.attr == 'copy') or
             (isinstance(v.func, ast.Name) and (v.func.id == 'dict' or v.func.id in self.fresh_fns))):
           self.fresh_copies.add(nm)
-    self.fresh_copies = {n for n in self.fresh_copies if count[n] == 1}
+    # fresh when EVERY assignment to the name produces a new object
+    nonfresh = set()
+    for n in ast.walk(ast.Module(body=list(stmts), type_ignores=[])):
+      if isinstance(n, ast.Assign) and len(n.targets) == 1 and isinstance(n.targets[0], ast.Name):
+        v = n.value
+        ok = (isinstance(v, ast.Call) and ((isinstance(v.func, ast.Attribute) and v.func.attr == 'copy') or
+                                          (isinstance(v.func, ast.Name) and (v.func.id == 'dict' or v.func.id in self.fresh_fns)))) \
+             or (isinstance(v, ast.Dict) and not v.keys)
+        if not ok:
+          nonfresh.add(n.targets[0].id)
+    self.fresh_copies = {n for n in count if n not in nonfresh}
+    self.assign_count = dict(count)
 
   fresh_fns = ()
+  phase = 'enter'
+  touched = False
+  assign_count = {}
+  inlined_locals = set()
 
   # -- whole functions ---------------------------------------------------------------------------------
   def sig(self, with_saved=False):
@@ -390,50 +578,78 @@ class Fn:
     if not body or not isinstance(body[-1], ast.Return) or body[-1].value is None:
       self.err(self.fn, 'getter does not end in `return expr`')
     self._scan_fresh(body)
+    self.phase, self.touched, self.inlined_locals = 'getter', False, set()
     ret = body[-1]
     env0 = [p for p in self.params if p not in self.key_params]
     text = self.S(body[:-1], env0, lambda env: '  ' + self.E(ret.value, env), 1)
-    return 'Definition %s %s (st : store) : val :=\n%s.' % (coq_name, self.sig(False), text)
+    stores = '(st : store) (gst : store)' if self.use_global else '(st : store)'
+    return 'Definition %s %s %s : val :=\n%s.' % (coq_name, self.sig(False), stores, text)
 
   def manager(self, coq_name, enter_body, exit_body, exit_extra_params=()):
     """enter_body: statements up to the yield; exit_body: the finally block."""
-    self._scan_fresh(enter_body)
+    self._scan_fresh(list(enter_body) + list(exit_body))
+    self.phase, self.touched, self.inlined_locals = 'enter', False, set()
     env0 = [p for p in self.params if p not in self.key_params] + list(self.self_attrs)
     saved_box = []
     def k_enter(env):
       saved = [e for e in env if e not in self.params or e in self.assigned]
-      saved = [e for e in saved if e != 'self']
+      saved = [e for e in saved if e != 'self' and e not in self.inlined_locals]
       if saved_box and saved_box[0] != saved:
         raise TranslationError('%s: the set of live variables at `yield` differs between paths' % self.fn.name)
       if not saved_box:
         saved_box.append(saved)
-      return '  Some (st, [%s])' % '; '.join(self.var(e) for e in saved)
+      lst = '; '.join(self.var(e) for e in saved)
+      return '  Some (st, gst, [%s])' % lst if self.use_global else '  Some (st, [%s])' % lst
     pre = ''.join('  let %s := %s in\n' % (self.var(a), v) for a, v in self.self_attrs.items())
     enter = self.S(enter_body, env0, k_enter, 1)
+    if not saved_box:
+      raise TranslationError('%s: no path reaches the yield' % self.fn.name)
     saved = saved_box[0]
+    self.phase = 'exit'
     env1 = [p for p in self.params if p not in self.key_params and p not in saved] + saved + list(exit_extra_params)
-    ex = self.S(exit_body, env1, lambda env: '    st', 2)
+    ex = self.S(exit_body, env1, lambda env: '    (st, gst)' if self.use_global else '    st', 2)
     sig = self.sig(True)
     out = []
-    out.append('Definition %s_enter %s (st : store) : option (store * list val) :=\n%s%s.' % (coq_name, sig, pre, enter))
-    out.append('Definition %s_exit %s (saved : list val) (st : store) : store :=\n  match saved with\n  | [%s] =>\n%s\n  | _ => st\n  end.'
-               % (coq_name, sig, '; '.join(self.var(e) for e in saved), ex))
+    if self.use_global:
+      out.append('Definition %s_enter %s (st : store) (gst : store) : option (store * store * list val) :=\n%s%s.' % (coq_name, sig, pre, enter))
+      out.append('Definition %s_exit %s (saved : list val) (st : store) (gst : store) : store * store :=\n  match saved with\n  | [%s] =>\n%s\n  | _ => (st, gst)\n  end.'
+                 % (coq_name, sig, '; '.join(self.var(e) for e in saved), ex))
+    else:
+      out.append('Definition %s_enter %s (st : store) : option (store * list val) :=\n%s%s.' % (coq_name, sig, pre, enter))
+      out.append('Definition %s_exit %s (saved : list val) (st : store) : store :=\n  match saved with\n  | [%s] =>\n%s\n  | _ => st\n  end.'
+                 % (coq_name, sig, '; '.join(self.var(e) for e in saved), ex))
     return '\n'.join(out), saved
 
 
-def _split_cm(fn, who):
-  """[pre..., Try(body=[..., yield], finalbody=[...])] -> (enter statements, exit statements)"""
+def _split_cm(fn, who, allow_flag_handler=False):
+  """[pre..., Try(body=[..., yield], finalbody=[...])] -> (enter statements, exit statements).
+  With allow_flag_handler a handler `except Exception: <flag> = True; raise` is accepted: it only records that the
+  body raised (the flag is False on the normal path, which is the value the exit block is translated with)."""
   if not _is_cm(fn):
     raise TranslationError('%s is not a @contextlib.contextmanager' % who)
   body = _strip_doc(fn.body)
   if not body or not isinstance(body[-1], ast.Try):
     raise TranslationError('%s: body does not end in try/finally' % who)
   t = body[-1]
-  if t.handlers or t.orelse or not t.finalbody:
-    raise TranslationError('%s: try has handlers/else or no finally' % who)
+  if t.orelse or not t.finalbody:
+    raise TranslationError('%s: try has an else block or no finally' % who)
+  if t.handlers:
+    ok = (allow_flag_handler and len(t.handlers) == 1 and len(t.handlers[0].body) == 2
+          and isinstance(t.handlers[0].body[0], ast.Assign) and isinstance(t.handlers[0].body[0].targets[0], ast.Name)
+          and isinstance(t.handlers[0].body[0].value, ast.Constant) and t.handlers[0].body[0].value.value is True
+          and isinstance(t.handlers[0].body[1], ast.Raise) and t.handlers[0].body[1].exc is None)
+    if not ok:
+      raise TranslationError('%s: unsupported exception handler (it could swallow the exception or change state)' % who)
+    flag = t.handlers[0].body[0].targets[0].id
+    # the flag may only guard user callbacks in the finally block
+    for n in ast.walk(ast.Module(body=list(t.finalbody), type_ignores=[])):
+      if isinstance(n, ast.If) and any(isinstance(m, ast.Name) and m.id == flag for m in ast.walk(n.test)):
+        for st_ in list(n.body) + list(n.orelse):
+          if not (isinstance(st_, ast.Expr) and isinstance(st_.value, ast.Call) and isinstance(st_.value.func, ast.Name)):
+            raise TranslationError('%s: the exception flag guards more than a callback' % who)
   for s in body[:-1]:
     for n in ast.walk(s):
-      if isinstance(n, (ast.Yield, ast.YieldFrom, ast.Try, ast.With, ast.While, ast.Return, ast.Raise)):
+      if isinstance(n, (ast.Yield, ast.YieldFrom, ast.Try, ast.With, ast.While, ast.Return)):
         raise TranslationError('%s: unsupported control flow before try' % who)
   tb = list(t.body)
   if not tb or not (isinstance(tb[-1], ast.Expr) and isinstance(tb[-1].value, ast.Yield)):
@@ -699,6 +915,57 @@ def translate(repo=None):
   kd = keys.add('tls', hc['_TLS_KEY_DYNAMIC_EVALUATE_FN'])
   info['dyn_key'] = hc['_TLS_KEY_DYNAMIC_EVALUATE_FN']
 
+  # ---- hyper/base.py + hyper/dynamic_evaluation.py: dynamic_evaluate (thread-local key + one module-level variable) ----
+  gvar = [n for n in hb.body if isinstance(n, ast.Assign) and ast.dump(n.targets[0]) == "Name(id='_global_dynamic_evaluate_fn', ctx=Store())"]
+  if len(gvar) != 1 or not (isinstance(gvar[0].value, ast.Constant) and gvar[0].value.value is None):
+    raise TranslationError('hyper/base: _global_dynamic_evaluate_fn is not a module-level variable initialised to None')
+  ext_base = dict(consts=hc, globals={'_global_dynamic_evaluate_fn': 'g_dynamic_evaluate'},
+                  procs={'set_dynamic_evaluate_fn': _find_fn(hb, 'set_dynamic_evaluate_fn')}, tree=hb)
+  gfn = Fn(_find_fn(hb, 'get_dynamic_evaluate_fn'), hc, keys, {})
+  gfn.use_global = True
+  gfn.global_vars = dict(ext_base['globals'])
+  defs.append('(* hyper/base.py: get_dynamic_evaluate_fn *)\n' + gfn.getter('get_dynamic_evaluate_fn'))
+  de = _parse(P('hyper/dynamic_evaluation.py'))
+  f = _find_fn(de, 'dynamic_evaluate')
+  if [a.arg for a in f.args.args] != ['evaluate_fn', 'yield_value', 'exit_fn', 'per_thread']:
+    raise TranslationError('dynamic_evaluate signature')
+  if ast.dump(f.args.defaults[-1]) != 'Constant(value=True)':
+    raise TranslationError('dynamic_evaluate: per_thread no longer defaults to True')
+  en, ex = _split_cm(f, 'dynamic_evaluate', allow_flag_handler=True)
+  dfn = Fn(f, _module_consts(de), keys, {})
+  dfn.use_global = True
+  dfn.extern = {'base': ext_base}
+  text, _ = dfn.manager('dynamic_evaluate', en, ex)
+  defs.append('(* hyper/dynamic_evaluation.py: dynamic_evaluate, with base.set_dynamic_evaluate_fn inlined *)\n' + text)
+  if sorted(set(dfn.used_keys)) != [hc['_TLS_KEY_DYNAMIC_EVALUATE_FN']]:
+    raise TranslationError('dynamic_evaluate uses thread-local keys %s' % sorted(set(dfn.used_keys)))
+  info['notes'] = list(dfn.notes)
+
+  # ---- utils/json_conversion.py: _TypeRegistry.load_types_for_deserialization (one process-wide stack) ---------------------
+  jc = _parse(P('utils/json_conversion.py'))
+  f = _find_fn(jc, 'load_types_for_deserialization', '_TypeRegistry')
+  if [a.arg for a in f.args.args] != ['self'] or f.args.vararg is None:
+    raise TranslationError('load_types_for_deserialization signature')
+  rinit = _find_fn(jc, '__init__', '_TypeRegistry')
+  if "Assign(targets=[Attribute(value=Name(id='self', ctx=Load()), attr='_ondemand_registry_stack', ctx=Store())], value=List(elts=[], ctx=Load()))" \
+      not in [ast.dump(x) for x in rinit.body]:
+    raise TranslationError('_TypeRegistry._ondemand_registry_stack is not initialised to []')
+  reg = [n for n in ast.walk(jc) if isinstance(n, ast.Assign) and ast.dump(n.targets[0]) == "Name(id='_TYPE_REGISTRY', ctx=Store())"]
+  if len(reg) != 1 or ast.dump(reg[0].value) != "Call(func=Name(id='_TypeRegistry', ctx=Load()), args=[], keywords=[])":
+    raise TranslationError('JSONConvertible._TYPE_REGISTRY is no longer one class-level _TypeRegistry()')
+  en, ex = _split_cm(f, 'load_types_for_deserialization')
+  lfn = Fn(f, _module_consts(jc), keys, {})
+  lfn.params = [x for x in lfn.params if x != 'self']
+  lfn.use_global = True
+  lfn.global_attrs = {'_ondemand_registry_stack': 'g_ondemand_types'}
+  va = f.args.vararg.arg
+  lfn.vararg_dict = (va, "DictComp(key=Attribute(value=Name(id='t', ctx=Load()), attr='__name__', ctx=Load()), value=Name(id='t', ctx=Load()), "
+                         "generators=[comprehension(target=Name(id='t', ctx=Store()), iter=Name(id='%s', ctx=Load()), ifs=[], is_async=0)])" % va)
+  text, _ = lfn.manager('load_types', en, ex)
+  defs.append('(* json_conversion.py: _TypeRegistry.load_types_for_deserialization; the argument is the dict {t.__name__: t for t in types} *)\n' + text)
+  if lfn.used_keys:
+    raise TranslationError('load_types_for_deserialization touches thread-local keys')
+
   # ---- emit ----------------------------------------------------------------------------------------------------------------------
   out.append('(* GENERATED by harness/translators/scope_defs.py from pyglove/core/{utils/thread_local,symbolic/flags,utils/formatting,')
   out.append('   coding/permissions,coding/execution,views/base,utils/timing,utils/contextual,detouring/class_detour,hyper/base}.py.')
@@ -715,6 +982,10 @@ def translate(repo=None):
   out.append('Definition key_names : list (nat * list nat) :=')
   out.append('  [' + ';\n   '.join('(%d, %s)' % (nsid[ns], _coq_string(s)) for ns, s, _ in keys.items) + '].')
   out.append('Definition k_dynamic_evaluate : tlkey := %s.' % keys.items[kd][2])
+  out.append('(* the process-wide store: hyper/base.py _global_dynamic_evaluate_fn, json_conversion.py _TypeRegistry._ondemand_registry_stack *)')
+  out.append('Definition g_dynamic_evaluate : tlkey := 0.')
+  out.append('Definition g_ondemand_types : tlkey := 1.')
+  out.append('Definition nglob : nat := 2.')
   out.append('Definition k_str_format : tlkey := %s.' % keys.ident('tls', fmt['str_format']))
   out.append('Definition k_repr_format : tlkey := %s.' % keys.ident('tls', fmt['repr_format']))
   for a in sorted(aliases):
